@@ -1,7 +1,8 @@
 ------------------------- MODULE PageXml_Trace -------------------------
 (* Trace layer for PageXml (C01).  A recorded execution of the real pero_ocr.core.layout.PageLayout
      page0 (projection of the built object);
-     events[1..5] = Export v / Load how / Export v' / Load how' / Export v'
+     events[1..5] = Export v / Load how pm / Export v' / Load how' pm' / Export v'   (pm = order in which the harness
+                    hands the TextRegion elements of the written document to the import: identity or "another tool re-ordered them")
    each with the projection of the live object after the call (page) and, for Export, the independent
    projection of the written document (doc) and a digest of its text with the timestamps removed (hash).
 
@@ -21,20 +22,19 @@ SafeHts(regs, i, j) == IF i <= Len(regs) THEN (IF j <= Len(regs[i].lines) /\ Len
                                                 THEN regs[i].lines[j].hts ELSE <<0, 0>>)
                        ELSE <<0, 0>>
 \* what the recorded document holds at position (i, j): used only for OffGrid heights
-Sorted == IF page.hasRO THEN SortByRO(page.regions, page.ro) ELSE page.regions
 OgOf(D) == [i \in 1..Len(Sorted) |-> [j \in 1..Len(Sorted[i].lines) |-> SafeHts(D.regions, i, j)]]
 \* the guess recorded for the line (i, j) of the document being loaded: matched by region id (the constructor re-orders)
 RegIdx(regs, id) == IF \E r \in 1..Len(regs) : regs[r].id = id THEN CHOOSE r \in 1..Len(regs) : regs[r].id = id ELSE 0
-GOf(Q) == [i \in 1..Len(doc.regions) |-> [j \in 1..Len(doc.regions[i].lines) |->
-              LET r == RegIdx(Q.regions, doc.regions[i].id) IN IF r = 0 THEN <<0, 0>> ELSE SafeHts(Q.regions, r, j)]]
-GuessValid(Q) == \A i \in 1..Len(doc.regions) : \A j \in 1..Len(doc.regions[i].lines) :
-                    doc.regions[i].lines[j].hts = <<>> => (ValidHt(GOf(Q)[i][j][1]) /\ ValidHt(GOf(Q)[i][j][2]))
+GOf(Q, src) == [i \in 1..Len(src) |-> [j \in 1..Len(src[i].lines) |->
+                  LET r == RegIdx(Q.regions, src[i].id) IN IF r = 0 THEN <<0, 0>> ELSE SafeHts(Q.regions, r, j)]]
+GuessValid(Q, src) == \A i \in 1..Len(src) : \A j \in 1..Len(src[i].lines) :
+                         src[i].lines[j].hts = <<>> => (ValidHt(GOf(Q, src)[i][j][1]) /\ ValidHt(GOf(Q, src)[i][j][2]))
 OgValid(D) == \A i \in 1..Len(Sorted) : \A j \in 1..Len(Sorted[i].lines) :
                  OgOf(D)[i][j][1] >= 0 /\ OgOf(D)[i][j][2] >= 0
 
 TInit == /\ tid \in 1..NTraces
          /\ page = Tr.page0 /\ pre = Tr.page0
-         /\ doc = NoDoc /\ prevDoc = NoDoc /\ step = 0 /\ how = "none" /\ pclause = 0
+         /\ doc = NoDoc /\ prevDoc = NoDoc /\ seen = NoDoc /\ step = 0 /\ how = "none" /\ pclause = 0
 
 TNext == /\ UNCHANGED <<tid, pclause>>
          /\ Tr.outcome = "ok" /\ step < Len(Tr.events)
@@ -45,8 +45,9 @@ TNext == /\ UNCHANGED <<tid, pclause>>
                   /\ doc' = ev.doc /\ page' = ev.page
                   /\ (step = 4) => (ev.hash = Tr.events[3].hash)        \* identical text, timestamps aside
                \/ /\ ev.a = "Load"
-                  /\ GuessValid(ev.page)
-                  /\ Load(ev.how, GOf(ev.page))
+                  /\ IsPermIdx(ev.pm, Len(doc.regions))
+                  /\ GuessValid(ev.page, Src(ev.pm))
+                  /\ Load(ev.how, GOf(ev.page, Src(ev.pm)), ev.pm)
                   /\ page' = ev.page
 
 TAccept == TKMark(tid, step, step = 5)
@@ -54,6 +55,10 @@ TPost == TKPost
 
 \* ---------------------------------------------------------------- property level
 E(n) == Tr.events[n]
+\* the document as the n-th call (a Load) saw it: the one written by call n-1, regions re-ordered by pm
+Seen(n) == LET D == E(n - 1).doc
+               pm == E(n).pm
+           IN IF IsPermIdx(pm, Len(D.regions)) THEN [D EXCEPT !.regions = [i \in 1..Len(D.regions) |-> D.regions[pm[i]]]] ELSE D
 Shape == /\ Tr.outcome = "ok" /\ Len(Tr.events) = 5
          /\ E(1).a = "Export" /\ E(2).a = "Load" /\ E(3).a = "Export" /\ E(4).a = "Load" /\ E(5).a = "Export"
          /\ E(5).v = E(3).v
@@ -61,11 +66,11 @@ Shape == /\ Tr.outcome = "ok" /\ Len(Tr.events) = 5
 Clause ==
   IF ~Shape THEN 1                                                          \* the real code raised
   ELSE IF ~WrittenOK(Tr.page0, E(1).doc) THEN 2                             \* written in reading order (1st export)
-  ELSE IF ~RoundTripOK(Tr.page0, E(1).doc, E(2).page, E(2).how) THEN 3      \* load(export(p)) = p up to rounding
-  ELSE IF E(2).how = "ctor" /\ ~HeldOK(E(1).doc, E(2).page) THEN 4          \* held in reading order
+  ELSE IF ~RoundTripOK(Tr.page0, Seen(2), E(2).page, E(2).how) THEN 3       \* load(export(p)) = p up to rounding
+  ELSE IF E(2).how = "ctor" /\ ~HeldOK(Seen(2), E(2).page) THEN 4           \* held in reading order
   ELSE IF ~WrittenOK(E(2).page, E(3).doc) THEN 5
-  ELSE IF ~RoundTripOK(E(2).page, E(3).doc, E(4).page, E(4).how) THEN 6
-  ELSE IF E(4).how = "ctor" /\ ~HeldOK(E(3).doc, E(4).page) THEN 7
+  ELSE IF ~RoundTripOK(E(2).page, Seen(4), E(4).page, E(4).how) THEN 6
+  ELSE IF E(4).how = "ctor" /\ ~HeldOK(Seen(4), E(4).page) THEN 7
   ELSE IF ~WrittenOK(E(4).page, E(5).doc) THEN 8
   ELSE IF ~(E(5).doc = E(3).doc /\ E(5).hash = E(3).hash) THEN 9            \* fixpoint
   ELSE 0
@@ -73,7 +78,7 @@ Clause ==
 PInit == /\ tid \in 1..NTraces
          /\ pclause = Clause
          /\ page = Tr.page0 /\ pre = Tr.page0
-         /\ doc = NoDoc /\ prevDoc = NoDoc /\ step = 0 /\ how = "none"
+         /\ doc = NoDoc /\ prevDoc = NoDoc /\ seen = NoDoc /\ step = 0 /\ how = "none"
 PNext == UNCHANGED <<vars, tid, pclause>>
 PAccept == TKMark(tid, pclause, pclause = 0)
 
